@@ -307,6 +307,8 @@ def build(md, cfg=None, setup=True):
             g.nonlinear_solver = nl
         if ln is not None:
             g.linear_solver = ln
+            if md.get('jac') and (sv.get('ln') or {}).get('opts', {}).get('assemble_jac'):
+                g.options['assembled_jac_type'] = md['jac']
     for dv in md.get('desvars', []):
         kw = {k: v for k, v in dv.items() if k not in ('name', 'oid', 'indices_term', 'flat_indices') and v is not None}
         if dv.get('indices_term') is not None:
